@@ -13,6 +13,8 @@ import time
 VERIF = os.path.dirname(os.path.dirname(os.path.abspath(__file__)))
 REPO = os.environ.get("VERIF_REPO", "/repo")
 KNOWN_FILE = os.path.join(VERIF, "known_findings.json")
+# scratch runs (seeded changes applied to a copy of the repository) write their evidence and replays elsewhere
+OUT = os.environ.get("VERIF_OUT", VERIF)
 
 
 def load_known():
@@ -160,7 +162,7 @@ class Report:
                 lines.append(f"KNOWN-FINDING: property={self.pid} {v['key']}: {ent.get('what', v['what'])}")
                 continue
             n_unlisted += 1
-            d = os.path.join(VERIF, "replays", self.pid)
+            d = os.path.join(OUT, "replays", self.pid)
             os.makedirs(d, exist_ok=True)
             h = hashlib.sha256(json.dumps(v["replay"], sort_keys=True).encode()).hexdigest()[:12]
             path = os.path.join(d, h + ".json")
@@ -203,8 +205,8 @@ class Report:
             "wall_s": round(wall, 2),
             "violations": n_unlisted,
         }
-        os.makedirs(os.path.join(VERIF, "evidence"), exist_ok=True)
-        json.dump(ev, open(os.path.join(VERIF, "evidence", self.pid + ".json"), "w"), indent=1)
+        os.makedirs(os.path.join(OUT, "evidence"), exist_ok=True)
+        json.dump(ev, open(os.path.join(OUT, "evidence", self.pid + ".json"), "w"), indent=1)
         for l in lines:
             print(l)
         print(f"[{self.pid}] tier={self.tier} paths={self.paths} forks={self.forks} obligations={self.obligations} "
